@@ -8,11 +8,17 @@
 (*                       per case); every terminal state is exported as the   *)
 (*                       case the Go harness runs, with the code-shaped       *)
 (*                       expectation (pings sent, closing instant).           *)
+(*  Both also cover (bounded by MaxStalls / StallMaxLen / EstMaxLen) pings    *)
+(*  that the session's transport holds past their deadline or past one or two *)
+(*  ticks, and the ways a session is established on the side that pings.      *)
 EXTENDS KeepAlive, Json
 
 CaseJson == [pattern |-> script, T |-> thr0, end |-> endMode,
              drain |-> drain, drainAt |-> drainedAt,
              hs |-> hs, cc |-> cc, hsAt |-> HsTime, ccAt |-> CcTime,
+             est |-> est, sides |-> SidesOf, userPlan |-> UserTime,
+             holds |-> [i \in 1..Len(hist) |-> hist[i].h],
+             durs |-> [i \in 1..Len(script) |-> HoldOf(script[i])],
              nping |-> k, closeAt |-> closedAt, userAt |-> userAt, unit |-> Interval,
              final |-> pc, ticks |-> [i \in 1..Len(hist) |-> hist[i].at]]
 \* used as an invariant: evaluated once per distinct state, TRUE always
@@ -27,6 +33,8 @@ GenHsSlots == {-1, 0, 1, 2, 3, 4}
 GenCtxSlots == {-1, 0, 1, 2, 3, 4}
 WitHsSlots == {-1, 0, 1, 2}
 WitCtxSlots == {-1, 0, 1}
+AllStalls == {"l0", "l1", "l2"}
+AllEst == {"init", "fallback", "modern"}
 
 \* reachability witnesses (each must be VIOLATED, otherwise the model is vacuous)
 NeverClosed == closedAt < 0
@@ -42,4 +50,35 @@ NeverAnsweredBeforeHandshake == ~(\E i \in 1..Len(hist) : hist[i].o = "a" /\ hs 
 \* the loop keeps pinging, and closes a silent peer, after the Connect context has ended
 NeverPingAfterCtxCancel == ~(\E i \in 1..Len(hist) : cc >= 0 /\ hist[i].at > CcTime)
 NeverClosedAfterCtxCancel == ~(cc >= 0 /\ closedAt > CcTime /\ ConnCtxDone)
+\* a ping is held past a tick and the loop pings again at once (off the ticker's phase), a
+\* tick is dropped, a held ping below the threshold is followed by an answered one (the
+\* session stays), a held ping completes the threshold (the session is closed late)
+NeverCatchUp == ~(\E i \in 1..Len(hist) : hist[i].at % Interval # 0)
+NeverDroppedTick == ~(\E i \in 1..(Len(hist) - 1) : hist[i + 1].at - hist[i].at > 2 * Interval)
+NeverRecoveredAfterHold == ~(pc = "select" /\ cf = 0 /\ \E i \in 1..(Len(hist) - 1) :
+                               hist[i].o = "l" /\ hist[i].h > Interval /\ hist[i + 1].o = "a")
+NeverToleratedHold == ~(pc = "select" /\ cf > 0 /\ hist[Len(hist)].o = "l")
+NeverClosedByHold == ~(closedAt >= 0 /\ hist[Len(hist)].o = "l" /\ closedAt > hist[Len(hist)].at + Interval)
+\* a session that fell back to initialize is pinged and closed; one without ping is left alone
+NeverClosedAfterFallback == ~(est = "fallback" /\ closedAt >= 0)
+NeverModern == ~(est = "modern" /\ userAt >= 0)
+\* the owner closes while a ping is held and a tick is waiting; the loop leaves without serving it
+NeverLeftWithTickWaiting == ~(pc = "done" /\ pendTick /\ endMode = "held")
+\* All witnesses in one run (KeepAlive_wit.cfg, one worker): the first state that refutes a
+\* witness is reported, registers 101.. remember which have been.
+WitNames == <<"NeverClosed", "NeverStopped", "NeverTolerated", "NeverReset", "NeverDrained", "NeverLateClose",
+              "NeverPingBeforeHandshake", "NeverClosedBeforeHandshake", "NeverAnsweredBeforeHandshake",
+              "NeverPingAfterCtxCancel", "NeverClosedAfterCtxCancel",
+              "NeverCatchUp", "NeverDroppedTick", "NeverRecoveredAfterHold", "NeverToleratedHold", "NeverClosedByHold",
+              "NeverClosedAfterFallback", "NeverModern", "NeverLeftWithTickWaiting">>
+WitHolds == <<NeverClosed, NeverStopped, NeverTolerated, NeverReset, NeverDrained, NeverLateClose,
+              NeverPingBeforeHandshake, NeverClosedBeforeHandshake, NeverAnsweredBeforeHandshake,
+              NeverPingAfterCtxCancel, NeverClosedAfterCtxCancel,
+              NeverCatchUp, NeverDroppedTick, NeverRecoveredAfterHold, NeverToleratedHold, NeverClosedByHold,
+              NeverClosedAfterFallback, NeverModern, NeverLeftWithTickWaiting>>
+WitInit == \A i \in 1..Len(WitNames) : TLCSet(100 + i, FALSE)
+WitSpec == (WitInit /\ Init) /\ [][Next]_vars
+WitMark == \A i \in 1..Len(WitNames) :
+              IF ~WitHolds[i] /\ ~TLCGet(100 + i)
+              THEN TLCSet(100 + i, TRUE) /\ PrintT(ToJson([wit |-> WitNames[i]])) ELSE TRUE
 =============================================================================
